@@ -24,7 +24,7 @@ OBS = {'m1': 'Obs A', 'm2': 'Obs B', 'mx': 'Obs X', 'mv': 'Obs A', 'c': 'Weight'
 OUTPUTS = ['central.drug_amount', 'central.drug_concentration']
 
 
-def make_frame(data, id_as_string, rng):
+def make_frame(data, id_as_string, rng, replic=False):
     rows = []
     for k, r in enumerate(data):
         idv = ('id%d' % r['id']) if id_as_string else r['id']
@@ -33,7 +33,9 @@ def make_frame(data, id_as_string, rng):
                'Comment': 'row %d' % k}
         if r['kind'] in ('m1', 'm2', 'mx'):
             row['Observable'] = OBS[r['kind']]
-            row['Value'] = meas_value(k, r)
+            row['Value'] = meas_value(k, r, replic)
+            if replic:
+                row['Comment'] = 'replicate'
         elif r['kind'] == 'mv':
             row['Observable'] = OBS['mv']
         elif r['kind'] == 'c':
@@ -47,8 +49,10 @@ def make_frame(data, id_as_string, rng):
     return pd.DataFrame(rows, columns=['Comment', 'ID', 'Time', 'Observable', 'Value', 'Dose', 'Duration'])
 
 
-def meas_value(k, r):
-    return round(1.0 + 0.3 * r['v'] + 0.01 * k, 3)
+def meas_value(k, r, replic=False):
+    # replic: the reading depends on the abstract value only -- replicate samples (same individual, observable, time and
+    # reading) are then IDENTICAL rows, and a dataset is a sequence of rows, not a set (Controller!Meas counts each)
+    return round(1.0 + 0.3 * r['v'] + (0.0 if replic else 0.01 * k), 3)
 
 
 def cov_value(v):
@@ -89,6 +93,8 @@ def replay_case(arg):
         feats.append('has_irrelevant_rows')
     if post['ids'] != sorted(post['ids']):
         feats.append('ids_not_sorted')
+    if any(len(m[0]) == 0 and len(m[1]) > 0 for m in post['meas']):
+        feats.append('first_output_unobserved_for_an_individual')
     for f in feats:
         cnt['feat_' + f] = 1
 
@@ -99,7 +105,10 @@ def replay_case(arg):
         cnt['outside_preconditions'] = 1
         return fails, cnt
     id_as_string = bool(rng.integers(2))
-    frame = make_frame(data, id_as_string, rng)
+    replic = (int(key, 16) // 13) % 2 == 1
+    if replic:
+        cnt['replicate_readings_identical_rows'] = 1
+    frame = make_frame(data, id_as_string, rng, replic)
     if mode == 'popcov':
         # a second covariate ("Age", one value per individual), mapped up front: the population model is swapped later for
         # one that reads it (controller life cycle: a posterior built after the swap uses the NEW model's covariates)
@@ -132,14 +141,28 @@ def replay_case(arg):
             if (int(key, 16) // 5) % 2:
                 mapping = dict(reversed(list(mapping.items())))
                 cnt['mapping_written_in_reverse_order'] = 1
+            # life cycle: every other individual-mode case fixes a mechanistic parameter BEFORE the data arrive (the controller
+            # then holds a reduced model when it reads the dose columns) and releases it afterwards -- the net configuration
+            # is the same, so is the posterior (Controller: the regimens are a function of the dataset alone)
+            fix_first = mode == 'indiv' and (int(key, 16) // 19) % 2 == 1
+            if fix_first:
+                pname = base_model().parameters()[1]
+                ctrl.fix_parameters({pname: 0.77})
+                cnt['parameter_fixed_before_set_data'] = 1
             ctrl.set_data(frame, output_observable_dict=mapping,
                           covariate_dict=({'W': 'Weight', 'A': 'Age'} if mode == 'popcov' else None))
+            if fix_first:
+                ctrl.fix_parameters({pname: None})
             scribble(ctrl, ('get_parameter_names', 'get_covariate_names', 'get_dosing_regimens'))
             n = ctrl.get_n_parameters()
             pri = [pints.GaussianLogPrior(1.0 + 0.05 * k, 1.5) for k in range(n)]
             ctrl.set_log_prior(pints.ComposedLogPrior(*pri))
             # ---- regimens derived from the dataset -------------------------------------------
             regs = ctrl.get_dosing_regimens()
+            if regs is None:
+                # (documented for a dataset read WITHOUT a dose key; here the dose key was given)
+                fail('Regimen', 'no_regimens_extracted', dict(expected=[post['regimen'][k] for k in range(len(ids))]))
+                return fails, cnt
             for k, i in enumerate(ids):
                 exp = sorted((2.0 * a / (0.25 * d if d else 0.01), 0.5 * t, (0.25 * d if d else 0.01), 0.0, 0)
                              for a, t, d in post['regimen'][k])
@@ -166,7 +189,7 @@ def replay_case(arg):
                 return m, obs, tms
             # measurement values: find the rows in order
             def meas_vals(i_int, kind):
-                return [meas_value(kk, r) for kk, r in enumerate(data) if r['id'] == i_int and r['kind'] == kind and r['t'] != 0]
+                return [meas_value(kk, r, replic) for kk, r in enumerate(data) if r['id'] == i_int and r['kind'] == kind and r['t'] != 0]
             lls = []
             for k, i in enumerate(ids):
                 m, _, tms = hand_ll(k)
@@ -235,6 +258,24 @@ def replay_case(arg):
                     fail('Posterior', 'value', dict(label=label, got=[float(gv), float(gs)], expected=[float(ev), float(es)]))
                 elif not interp.close(np.asarray(gg, dtype=float), np.asarray(eg, dtype=float), rtol=1e-5, atol=1e-6):
                     fail('Posterior', 'gradient', dict(label=label, got=np.asarray(gg).tolist(), expected=np.asarray(eg).tolist()))
+                if mode == 'indiv' and np.isfinite(gv):
+                    # the documented sum itself, independent of chi.LogLikelihood: every non-missing measurement of a mapped
+                    # observable once, scored by the error model of ITS output with that output's parameters (an individual may
+                    # have no measurement of the first output), plus the log-prior
+                    k = ids.index(label)
+                    m_k, _, tms_k = hand_ll(k)
+                    nmech = m_k.n_parameters()
+                    obs_k = [meas_vals(post['ids'][k], 'm1'), meas_vals(post['ids'][k], 'm2')]
+                    tot = sum(float(np.real(interp.gauss(x[q], 1.0 + 0.05 * q, 1.5))) for q in range(nn))
+                    for o, (kind_o, sl) in enumerate((('G', slice(nmech, nmech + 1)), ('C', slice(nmech + 1, nmech + 3)))):
+                        if len(obs_k[o]):
+                            sim = np.asarray(m_k.simulate(x[:nmech].copy(), np.asarray(tms_k[o], dtype=float)), dtype=float)
+                            for j, y in enumerate(obs_k[o]):
+                                tot += float(np.real(interp.ERR[kind_o](y, sim[o][j], x[sl])))
+                    cnt['evaluations'] = cnt.get('evaluations', 0) + 1
+                    if not interp.close(gv, tot, rtol=1e-6):
+                        fail('Posterior', 'value_vs_documented_sum', dict(label=label, got=float(gv), expected=tot,
+                                                                          n_obs=[len(obs_k[0]), len(obs_k[1])]))
             # ---- the data is set a SECOND time, without a dose table: nothing of the first dataset's regimens survives --
             if mode == 'indiv' and not fails and any(post['regimen'][k] for k in range(len(ids))):
                 ctrl.set_data(frame.drop(columns=['Dose', 'Duration']), dose_key=None, dose_duration_key=None,
